@@ -133,15 +133,15 @@ fn try_tokenize_recursive(
                     collect_var_and_dom_from_operator(input_chars, '!', parse_wild_cards)?;
                 output.push(HctlToken::Hybrid(HybridOp::Bind, name, domain));
             }
-            // "3" can be either exist quantifier or part of some proposition
-            '3' if !is_valid_in_name_optional(input_chars.peek()) => {
+            // "3" can be either exist quantifier or (part of) some proposition name
+            '3' if is_followed_by_var_segment(input_chars) => {
                 // collect the variable name via inside helper function
                 let (name, domain) =
                     collect_var_and_dom_from_operator(input_chars, '3', parse_wild_cards)?;
                 output.push(HctlToken::Hybrid(HybridOp::Exists, name, domain));
             }
-            // "V" can be either forall quantifier or part of some proposition
-            'V' if !is_valid_in_name_optional(input_chars.peek()) => {
+            // "V" can be either forall quantifier or (part of) some proposition name
+            'V' if is_followed_by_var_segment(input_chars) => {
                 // collect the variable name via inside helper function
                 let (name, domain) =
                     collect_var_and_dom_from_operator(input_chars, 'V', parse_wild_cards)?;
@@ -249,12 +249,13 @@ fn is_valid_in_name(c: char) -> bool {
     c.is_alphanumeric() || c == '_'
 }
 
-/// Check if given char can appear in a name.
-fn is_valid_in_name_optional(option_char: Option<&char>) -> bool {
-    if let Some(c) = option_char {
-        return is_valid_in_name(*c);
-    }
-    false
+/// Check (without consuming anything) if the following characters, after optional whitespaces,
+/// start the variable segment `{var}` of a hybrid operator. This distinguishes the quantifier
+/// characters `3` and `V` from propositions named (or starting with) `3` or `V`.
+fn is_followed_by_var_segment(input_chars: &Peekable<Chars>) -> bool {
+    let mut lookahead = input_chars.clone();
+    skip_whitespaces(&mut lookahead);
+    lookahead.peek() == Some(&'{')
 }
 
 /// Check if given optional char represents valid temporal operator.
